@@ -128,6 +128,13 @@ def o152(ctx):
     idx = data_index(to_term(upd[-1].args[1])) if upd else None
     tl = [e for e in it.events if e.kind == "call" and e.name == "cryocat.ioutils.tlt_load"]
     ctx.count(1, {"sort index": [tm.show(x)[:80] for x in idx] if idx else None})
+    ut = to_term(upd[-1].args[1]) if upd else None
+    if tl and ut is not None and ut.op == "ite" and ut.args[0].op == "vec" and tm.has_call(ut.args[0], "argsort"):
+        # out[perm] = data : a scatter through the sorting permutation
+        ctx.finding(q, upd[-1].node, "the images are scattered through the sorting permutation (out[argsort(angles)] = data): image i lands at position "
+                    "argsort[i], which is the inverse permutation -- the sorted stack is data[argsort(angles)] (a gather)", upd[-1].node, m,
+                    extracted=tm.show(ut)[:160])
+        return
     if not tl or idx is None:
         raise Unsupported("sort_tilts_by_angle structure not recognised", fn)
     sa = tl[0].kwargs.get("sort_angles")
